@@ -1,5 +1,6 @@
 """C09 — compare reports are faithful to the operands and leave them untouched;
 swapping the operands mirrors the report."""
+import copy
 import re
 
 from n0v import coqlit as L
@@ -57,11 +58,25 @@ class C09(Prop):
             a, b, loc = CC.enclose(rng, xs, ys)
             out.append({"stream": "cmp", "tag": "keyed",
                         "input": {"a": a, "b": b, "walk": "compare", "ck": ck, "setters": CC.gen_setters(rng)}})
+        # "the reported pair of ORIGINAL values": a transform decides equality only, the entries show what the operands hold
+        # - also when the transformed values are of different types (a number against a placeholder text)
+        pairs = [("12", "n/a"), ("7", "x"), ("n/a", "3"), ("5", "6"), ("5", "5.0"), ("a", "B"), (2.5, "x"), ("Ab", 3.5), (1.5, 2.5),
+                 ("Ab", "ab"), (None, "4"), ("8", None)]
+        for _ in range(150 if quick else 6000):
+            a, b = CC.gen_pair(rng, rng.choice([2, 3]), dict, edits=rng.choice([0, 1, 2]))
+            a, b = copy.deepcopy(a), copy.deepcopy(b)
+            spots = [p for p in CC.positions(a) if isinstance(CC.resolve(a, p), dict) and isinstance(CC.resolve(b, p), dict)]
+            da, db = [(CC.resolve(a, p), CC.resolve(b, p)) for p in [rng.choice(spots)]][0]
+            da["T"], db["T"] = rng.choice(pairs)
+            tr = [[rng.choice(["//T", "//t", "T"]), rng.choice([["num"], ["num"], ["round"], ["lower"], ["cs", "ab"]])]]
+            st = CC.gen_setters(rng) if rng.random() < 0.4 else []
+            for walk in ("direct", "compare"):
+                out.append({"stream": "cmp", "tag": "tr:" + walk, "input": {"a": a, "b": b, "walk": walk, "setters": st, "tr": copy.deepcopy(tr)}})
         return out
 
     def valid(self, case):
         i = case.get("input")
-        return (CC.valid_input(i) and not i.get("only") and not i.get("excl") and not i.get("tr")
+        return (CC.valid_input(i) and not i.get("only") and not i.get("excl")
                 and i.get("wa", "conv") == "conv" and i.get("wb", "conv") == "conv")
 
     def run_impl(self, case):
